@@ -2,8 +2,15 @@ package props
 
 import (
 	"bytes"
+	"crypto/sha256"
+	"encoding/asn1"
 	"encoding/hex"
 	"fmt"
+	"math/big"
+	"strings"
+
+	"github.com/decred/dcrd/dcrec/secp256k1/v4"
+	dcrecdsa "github.com/decred/dcrd/dcrec/secp256k1/v4/ecdsa"
 
 	"github.com/ipld/go-ipld-prime"
 	"github.com/ipld/go-ipld-prime/codec/dagcbor"
@@ -354,10 +361,10 @@ func c06FieldAlternatives(kind string) []kv {
 func c06RewriteSub() *engine.Sub {
 	return &engine.Sub{
 		Name: "structured-rewrites",
-		Rule: "envelopes rebuilt with the harness' own assembler: every payload field replaced by every alternative value or dropped while keeping the old signature; the same SigPayload signed by another key of the same and of every other algorithm; the header replaced by every other algorithm's header, truncated, extended, emptied, both with the old signature and re-signed by the issuer; the signature truncated to every length, emptied, extended; signature and header taken from another valid token of the same issuer. Every decoder must reject, or return the original content with an independently verifiable signature; non-trivial = all",
-		Bound: func(t string) string { return "2 kinds x 3 (quick) / 7 (thorough) algorithms" },
+		Rule: "envelopes rebuilt with the harness' own assembler: every payload field replaced by every alternative value or dropped while keeping the old signature; the same SigPayload signed by another key of the same and of every other algorithm; signed by the issuer and by another key of its algorithm with the signature in the other encodings of its family (ECDSA: fixed-width r||s, s||r, DER; secp256k1 additionally the 65-byte compact recoverable form with every header byte class; Ed25519/RSA: reversed and doubled); the header replaced by every other algorithm's header, truncated, extended, emptied, both with the old signature and re-signed by the issuer; the signature truncated to every length, emptied, extended; signature and header taken from another valid token of the same issuer. Every decoder must reject, or return the original content with an independently verifiable signature; non-trivial = all",
+		Bound: func(t string) string { return "2 kinds x 6 (quick) / 7 (thorough) algorithms" },
 		Gen: func(tier string, emit func(any) bool) {
-			algs := []string{"ed25519", "secp256k1", "p256", "rsa2048"}
+			algs := []string{"ed25519", "secp256k1", "p256", "p384", "p521", "rsa2048"}
 			if tier == "thorough" {
 				algs = fixtures.Algs()
 			}
@@ -377,6 +384,15 @@ func c06RewriteSub() *engine.Sub {
 					for _, k := range fixtures.All() {
 						if !emit(&c06RewriteCase{Kind: kind, Alg: alg, Rw: "signed-by-other-key", Arg: k.Alg, N: k.Idx}) {
 							return
+						}
+					}
+					// the same SigPayload signed by the issuer and by another key of the same algorithm, with the
+					// signature delivered in the other encodings known for that signature family
+					for _, f := range altSigFormats(alg) {
+						for _, who := range []string{"other-key", "issuer"} {
+							if !emit(&c06RewriteCase{Kind: kind, Alg: alg, Rw: "signature-in-other-format/" + who, Arg: f}) {
+								return
+							}
 						}
 					}
 					for _, halg := range fixtures.Algs() {
@@ -455,6 +471,21 @@ func c06RewriteSub() *engine.Sub {
 					return
 				}
 				mutated = assemble(ok, sigPayloadNode(p.Header, p.Tag, payload(p.Payload)))
+			case "signature-in-other-format/other-key", "signature-in-other-format/issuer":
+				signer := key
+				if strings.HasSuffix(cs.Rw, "/other-key") {
+					switch cs.Alg {
+					case "rsa2048":
+						signer = fixtures.Get("rsa3072", 0)
+					case "rsa3072":
+						signer = fixtures.Get("rsa2048", 0)
+					default:
+						signer = fixtures.Get(cs.Alg, 1)
+					}
+				}
+				sp := sigPayloadNode(p.Header, p.Tag, payload(p.Payload))
+				sig := altFormatSignature(signer, cs.Alg, cs.Arg, mustEncodeCbor(sp))
+				mutated = assembleWithSig(sig, sp)
 			case "header-replaced-old-sig", "header-replaced-resigned":
 				var h []byte
 				switch cs.Arg {
@@ -517,7 +548,7 @@ func c06RewriteSub() *engine.Sub {
 			ctx.States(1)
 			ctx.Nontrivial(1)
 			tag := cs.Rw
-			if cs.Rw == "header-replaced-resigned" || cs.Rw == "header-replaced-old-sig" {
+			if cs.Rw == "header-replaced-resigned" || cs.Rw == "header-replaced-old-sig" || strings.HasPrefix(cs.Rw, "signature-in-other-format/") {
 				tag += "/" + cs.Arg
 			}
 			c06Check(ctx, art, origView, orig, mutated, func() any { return cs }, tag)
@@ -537,6 +568,73 @@ func c06RewriteSub() *engine.Sub {
 			}
 		},
 	}
+}
+
+// altSigFormats lists the other known encodings of a signature of the algorithm's family.
+func altSigFormats(alg string) []string {
+	switch alg {
+	case "secp256k1":
+		return []string{"raw-rs", "raw-sr", "compact-compressed", "compact-uncompressed", "compact-header-0", "der-of-sha256-by-decred"}
+	case "p256", "p384", "p521":
+		return []string{"raw-rs", "raw-sr", "raw-rs-unpadded"}
+	case "ed25519":
+		return []string{"reversed", "doubled", "der-wrapped"}
+	default:
+		return []string{"reversed", "doubled"}
+	}
+}
+
+// altFormatSignature signs data with the signer's key and renders the signature in another format.
+func altFormatSignature(signer *fixtures.Key, alg, format string, data []byte) []byte {
+	sig, err := signer.Priv.Sign(data)
+	if err != nil {
+		panic(err)
+	}
+	switch format {
+	case "reversed":
+		return reverse(append([]byte{}, sig...))
+	case "doubled":
+		return append(append([]byte{}, sig...), sig...)
+	case "der-wrapped":
+		b, _ := asn1.Marshal(struct{ R, S *big.Int }{new(big.Int).SetBytes(sig[:32]), new(big.Int).SetBytes(sig[32:])})
+		return b
+	}
+	if strings.HasPrefix(format, "compact-") || format == "der-of-sha256-by-decred" {
+		raw, err := signer.Priv.Raw()
+		if err != nil {
+			panic(err)
+		}
+		dk := secp256k1.PrivKeyFromBytes(raw)
+		h := sha256.Sum256(data)
+		switch format {
+		case "compact-compressed":
+			return dcrecdsa.SignCompact(dk, h[:], true)
+		case "compact-uncompressed":
+			return dcrecdsa.SignCompact(dk, h[:], false)
+		case "compact-header-0":
+			c := dcrecdsa.SignCompact(dk, h[:], true)
+			c[0] = 0
+			return c
+		default:
+			return dcrecdsa.Sign(dk, h[:]).Serialize()
+		}
+	}
+	// ECDSA DER -> fixed-width forms
+	var rs struct{ R, S *big.Int }
+	if _, err := asn1.Unmarshal(sig, &rs); err != nil {
+		panic(fmt.Sprintf("harness: %s signature is not DER: %v", alg, err))
+	}
+	n := map[string]int{"secp256k1": 32, "p256": 32, "p384": 48, "p521": 66}[alg]
+	r, sv := rs.R.FillBytes(make([]byte, n)), rs.S.FillBytes(make([]byte, n))
+	switch format {
+	case "raw-rs":
+		return append(r, sv...)
+	case "raw-sr":
+		return append(sv, r...)
+	case "raw-rs-unpadded":
+		return append(rs.R.Bytes(), rs.S.Bytes()...)
+	}
+	panic(format)
 }
 
 func C06() *engine.Check {
